@@ -275,3 +275,52 @@ def writer_delegation(ctx, rule):
         need = {"dead", G["gz"], G["raw"]}
         if not need <= seen:
             ctx.violation(rule, "%s|%s|arms" % (rule, meth), "%s does not have the three arms dead / %s / %s (seen %s)" % (meth, G["gz"], G["raw"], sorted(seen)))
+
+
+def abort_table(ctx, rule):
+    """C11.R1: BodyWriter::abort: every row ends dead; both live arms reach the chunk writer's abort (gzip via get_mut)"""
+    from . import chunker as CH
+    G = gzip_ctor(ctx)
+    R = CH.roles(ctx)
+    wadt = None
+    for a in ctx.facts.adts.values():
+        if a["local"] and a["kind"] == "struct" and any(f["ty"].startswith(G["enum"]) for f in a["variants"][0]["fields"]):
+            wadt = a["path"]
+    fns = inherent_fn(ctx, wadt, "abort") if wadt else []
+    if len(fns) != 1:
+        ctx.violation(rule, rule + "|fn", "UNRECOGNISED: no unique abort on the public writer")
+        return
+    outs = [o for o in ctx.px(fns[0]) if o.kind == "return"]
+    seen = set()
+    for o in outs:
+        st0 = ("field", ("deref", ("param", 1)), "0")
+        var = o.cons.variant_of(st0)
+        post = P.PX(ctx.facts)._read(o.state, ("H", ("param", 1)), (("f", "0"),))
+        seen.add(var)
+        bad = []
+        if not (is_agg(post) and post[3] == G["dead"]):
+            bad.append("the writer is left in state %s, not dead" % short(post, 40))
+        ab = [e for e in o.events if e["k"] == "call" and e["callee"].get("res_path") == R["abort"]]
+        fin = [e for e in o.events if e["k"] == "call" and method_name_of(e) in ("finish", "try_finish", "flush", "write")]
+        if var in (G["raw"], G["gz"]):
+            if len(ab) != 1:
+                bad.append("the chunk writer's abort is called %d times" % len(ab))
+            elif ab[0]["args"][1] != ("param", 2):
+                bad.append("the caller's error is not the one handed to the chunk writer")
+            if fin:
+                bad.append("the stream is finished/flushed (%s) before aborting: a clean gzip trailer could precede the error" % method_name_of(fin[0]))
+            if var == G["gz"] and not any(e["k"] == "call" and method_name_of(e) == "get_mut" for e in o.events):
+                bad.append("the gzip arm does not reach the chunk writer through get_mut")
+        elif var == G["dead"]:
+            if ab:
+                bad.append("abort on a dead writer aborts again")
+        if bad:
+            ctx.violation(rule, "%s|%s|%s" % (rule, var, bad[0][:30]), "abort (state %s): %s" % (var, "; ".join(bad)))
+        else:
+            ctx.ok(rule, "abort: state %s -> dead%s" % (var, ", chunk writer aborted with the caller's error" if var != G["dead"] else ""))
+    if not {G["raw"], G["gz"], G["dead"]} <= seen:
+        ctx.violation(rule, rule + "|arms", "abort does not handle the three writer states (seen %s)" % sorted(str(s) for s in seen))
+
+
+def method_name_of(e):
+    return (e["callee"].get("res_path") or e["callee"].get("path") or "").split("::")[-1]
